@@ -199,6 +199,35 @@ func (f *frame) staticCall(site siteT, callee *ssa.Function, args []Val, pos tok
 			}
 		}
 	}
+	if key == "sort.Sort" && cc != nil && len(cc.Args) == 1 {
+		// sort.Sort(x) for a slice type x implementing sort.Interface in the usual way (Swap exchanges
+		// two elements): only x's backing array changes, and its new contents are a PERMUTATION of the
+		// old ones — new[k] == old[perm[k]] for an injective perm (which permutation is left open).
+		if mi, ok := cc.Args[0].(*ssa.MakeInterface); ok {
+			if st, ok := types.Unalias(mi.X.Type()).Underlying().(*types.Slice); ok {
+				sl := f.asTerm(f.get(mi.X))
+				ekey := elemKey(st.Elem())
+				esort := c.elemSort(st.Elem())
+				arr := c.heapGet(f.heap, ekey, esort)
+				nv := c.fresh(ekey+"~sorted", arrayElemSort(esort))
+				perm := c.fresh("perm~sort", arraySort(SInt, SInt))
+				oldInner := c.name("presort", sel(arr, sBase(sl)))
+				c.heapSet(f.heap, ekey, ite(eq(sBase(sl), tNil), arr, store(arr, sBase(sl), nv)))
+				c.counter["q"]++
+				k := quote(fmt.Sprintf("q k %d", c.counter["q"]))
+				c.counter["q"]++
+				k2 := quote(fmt.Sprintf("q k %d", c.counter["q"]))
+				off, ln := sOff(sl).S, sLen(sl).S
+				c.assume(implies(f.guard, Term{fmt.Sprintf("(forall ((%s Int)) (! (=> (and (<= 0 %s) (< %s %s)) (and (<= 0 (select %s %s)) (< (select %s %s) %s) (= (select %s (+ %s %s)) (select %s (+ %s (select %s %s)))))) :pattern ((select %s (+ %s %s)))))",
+					k, k, k, ln, perm.S, k, perm.S, k, ln, nv.S, off, k, oldInner.S, off, perm.S, k, nv.S, off, k), SBool}))
+				c.assume(implies(f.guard, Term{fmt.Sprintf("(forall ((%s Int) (%s Int)) (=> (and (<= 0 %s) (< %s %s) (< %s %s)) (not (= (select %s %s) (select %s %s)))))",
+					k, k2, k, k, k2, k2, ln, perm.S, k, perm.S, k2), SBool}))
+				c.assumed["sort.Sort on a slice type permutes the elements of its argument and touches nothing else (Len/Less/Swap of the type are the usual ones: Swap exchanges two elements)"] = true
+				c.externs[key] = true
+				return Tuple{}
+			}
+		}
+	}
 	if (key == "slices.SortFunc" || key == "slices.SortStableFunc" || key == "slices.Sort") && cc != nil && len(cc.Args) >= 1 {
 		// the generic sorts of package slices: same frame, the slice is passed as it is
 		if st, ok := types.Unalias(cc.Args[0].Type()).Underlying().(*types.Slice); ok {
